@@ -145,7 +145,7 @@ def gen_cases(ctx):
     # bounded-exhaustive: every spec with <= 2 nodes (<= 3 in the thorough tier, reduced attribute alphabet for 3) x every input
     # over the small alphabet (capped per spec by sampling when there are too many)
     max_exh = 3 if ctx.thorough else 2
-    cap = 40 if ctx.thorough else 10
+    cap = 24 if ctx.thorough else 10
     n_specs = 0
     for n in range(1, max_exh + 1):
         for f in pg.forests(n, full=(n <= 2)):
